@@ -981,7 +981,7 @@ both!(mismatch, mismatch_t, 0.25);
 fn main() {
     runner::main(Spec {
         property: "C15",
-        rule: "cases are drawn per family from seeded generators: vector length 1..200 (30% 1..8, 40% 9..50, 30% 51..200), f64 or f32 (25-30%); accuracy: binary / multiclass / real labels with planted equalities; binary: every class balance (0, 1, n-1, n, uniform positives) x predictions (flipped copy, independent, all-negative, all-positive, single positive), beta in {1, 0.5, 2, log-uniform 0.1..10}; auc: 1..n-1 positives, scores continuous / informative / 2-5 distinct values / constant / rounded / integers / separating / signed zeros / pre-sorted; regression: targets normal / integer / two-valued / constant, offset 0 or 0.1..1000 spreads, scale 1 or log-uniform (1e-100..1e100 f64, 1e-6..1e6 f32), predictions exact / noisy / unrelated / mean / shifted; hcv: 1..8 classes per side with arbitrary distinct integer label values (|v| <= 1e7), random / noisy copy / identical / renamed copy / refinement / coarsening / exact product table / single-class true, pred, both / one outlier; mismatch: the seven pairwise metrics (index mod 7) on binary vectors of different lengths 1..201 through either API. A case is non-trivial when at least one metric value is defined by the statement and compared (all cases except binary cases where neither precision nor recall is defined); distinct = distinct hash of (family tag, width, both vectors, beta/api)",
+        rule: "cases are drawn per family from seeded generators: vector length 1..200 (30% 1..8, 40% 9..50, 30% 51..200), f64 or f32 (25-30%); accuracy: binary / multiclass / real labels with planted equalities; binary: every class balance (0, 1, n-1, n, uniform positives) x predictions (flipped copy, independent, all-negative, all-positive, single positive), beta in {1, 0.5, 2, log-uniform 0.1..10}; auc: 1..n-1 positives, scores continuous / informative / 2-5 distinct values / constant / rounded / integers / separating / signed zeros / pre-sorted; regression: targets normal / integer / two-valued / constant, offset 0 or 0.1..1000 spreads, scale 1 or log-uniform (1e-100..1e100 f64, 1e-6..1e6 f32), predictions exact / noisy / unrelated / mean / shifted; hcv: 1..8 classes per side with arbitrary distinct integer label values (|v| <= 1e7), random / noisy copy / identical / renamed copy / refinement / coarsening / exact product table / single-class true, pred, both / one outlier; mismatch: the seven pairwise metrics (index mod 7) on binary vectors of different lengths 1..201 through either API. A case is non-trivial when at least one metric value is defined by the statement and compared (all cases except binary cases where neither precision nor recall is defined); distinct = distinct hash of (family tag, width, both vectors, beta/api); auc also draws the worst-case orders of the library's median-of-three argsort (gen::sort_killer); auc_sort_stress: 64..200 tie-free scores, 1500 hill-climbing steps (swap / reverse / rotate) from structured starts incl. both sort-killer orders, guided by the high-water mark of the sort's explicit stack (verif gauge), verdicts no-panic and the value of the definition at the start and the end of the search",
         assumptions: vec![
             "oracle arithmetic is f64 with compensated sums on the inputs already rounded to the width under test",
             "0/0 cases are outside the statement and are counted, not checked: precision without predicted positives, recall without actual positives, F-beta when precision or recall is undefined or both are 0 (the documented harmonic-mean formula is 0/0), AUC without a positive or without a negative (never generated), R² of a constant target",
